@@ -48,6 +48,9 @@ int vp_harness_main(void) {
   uint64_t n = s.f0.f1; ASSUME(n <= MAXS);
   const uint8_t *data0 = s.f0.f0;
   uint64_t lo = 0, hi = 0;
+#ifdef FAULT
+  { uint32_t fk = vp_in_u32(); ASSUME(fk < FAULT); vp_fail_alloc_at = vp_alloc_count + (int)fk; }   /* C19 */
+#endif
 #if OP == 1
   int64_t start = (int64_t)vp_in_u64(); uint64_t count = vp_in_u64();
   /* reference in arithmetic that cannot wrap: lo is clamped into [0,n] first */
@@ -129,6 +132,18 @@ int vp_harness_main(void) {
   CALL3(vp_after_last);
 #endif
   if (f > 0 && (uint64_t)f + m < n) REACH("separator strictly inside the string");
+#endif
+#ifdef FAULT
+  vp_fail_alloc_at = -1;
+  if (vp_exc_pending) {
+    ASSERT(vp_exc_kind == VP_EXC_BAD_ALLOC, "allocation failure surfaces as std::bad_alloc");
+    ASSERT(S_inv(&s.f0) && s.f0.f0 == data0 && s.f0.f1 == n, "source untouched by the failed operation");
+    REACH("allocation-failure path");
+    vp_clear_exception(); S_destroy(&s.f0);
+    ASSERT(vp_live_blocks == 0, "no leak after the failed operation");
+    REACH("end of harness");
+    return 0;
+  }
 #endif
   ASSERT(!vp_exc_pending, "slicing does not throw (in particular no bad_alloc / length error from an oversized request)");
   check_slice(&out, sh, lo, hi, "");
